@@ -3,6 +3,8 @@ use verif_core::*;
 pub mod c01;
 pub mod c02;
 pub mod c03;
+pub mod c04;
+pub mod c06;
 pub mod c16;
 pub mod c19;
 
@@ -11,6 +13,8 @@ pub fn table() -> Vec<Prop> {
         Prop { id: "C01", run: c01::run, replay: c01::replay },
         Prop { id: "C02", run: c02::run, replay: c02::replay },
         Prop { id: "C03", run: c03::run, replay: c03::replay },
+        Prop { id: "C04", run: c04::run, replay: c04::replay },
+        Prop { id: "C06", run: c06::run, replay: c06::replay },
         Prop { id: "C16", run: c16::run, replay: c16::replay },
         Prop { id: "C19", run: c19::run, replay: c19::replay },
     ]
